@@ -137,5 +137,25 @@ pub fn check(v: &View, vd: &mut Verdict) {
             }
         }
     }
+    // the broker behind `ctx.subscribe` / `Broker::subscribe` is an on-demand service as well: a
+    // subscription after its termination - awaited by somebody or not - finds a new, running one
+    for topic in 0..2u8 {
+        let halts: Vec<&OpRec> = v.ops.iter().filter(|o| o.what == OpWhat::BrokerHalt(topic)).collect();
+        for s in v.ops.iter().filter(|o| o.what == OpWhat::Subscribe(topic) && o.end.is_some()) {
+            let after = halts.iter().any(|h| matches!(h.res, Some(OpRes::Bool(true))) && h.end.is_some_and(|e| e < s.begin));
+            let overlap = halts.iter().any(|h| h.begin < s.end.unwrap() && h.end_or_max() > s.begin);
+            if !after || overlap {
+                continue;
+            }
+            vd.class("subscribe_after_broker_termination");
+            nt = true;
+            if s.err() {
+                vd.fail(
+                    "C14/subscribe_failed_after_broker_end",
+                    format!("topic {topic}: the broker had terminated before {:?} subscribed at {}, and nobody stopped the broker meanwhile, but the subscription failed with {:?} instead of finding a new broker", s.actor, s.begin, s.res),
+                );
+            }
+        }
+    }
     vd.nontrivial = nt;
 }
